@@ -13,11 +13,14 @@ PairsOf(q) == {<<q[i][1], <<q[i][2][1], q[i][2][2]>>>> : i \in DOMAIN q}
 LitOf(r) == [op |-> r.op, w |-> <<r.w[1], r.w[2]>>, atom |-> r.atom, ann |-> r.ann]
 RuleOf(r) == [h |-> r.h, ht |-> r.ht] @@ LitOf(r) @@ (IF "lit2" \in DOMAIN r THEN [lit2 |-> LitOf(r.lit2)] ELSE <<>>)
              @@ (IF "let" \in DOMAIN r THEN [let |-> <<r.let[1], r.let[2]>>] ELSE <<>>)
-Expected(c) == TModel({RuleOf(c.rules[i]) : i \in DOMAIN c.rules}, PairsOf(c.tfacts), {}, c.now, 6)
+\* coalesced = the base facts went into the temporal store through its API and TemporalStore.Coalesce ran for every
+\* predicate before the rules were evaluated: the operators then have their documented meaning over CoalesceDB(facts)
+Coalesced(c) == "coalesced" \in DOMAIN c /\ c.coalesced
+Expected(c) == TModel({RuleOf(c.rules[i]) : i \in DOMAIN c.rules}, IF Coalesced(c) THEN CoalesceDB(PairsOf(c.tfacts), 0) ELSE PairsOf(c.tfacts), {}, c.now, 6)
 \* Databases with overlapping intervals of one atom (C05): the operators' meaning is documented for
 \* coalesced facts only, so such a case is judged for order-independence alone: every presentation
 \* (clause and fact order, store kind, deterministic order, repetition) must give the same stores.
-Overlap(c) == "overlap" \in DOMAIN c /\ c.overlap
+Overlap(c) == "overlap" \in DOMAIN c /\ c.overlap /\ ~Coalesced(c)
 Inconsistent(c, i) ==
   /\ c.variants[i].outcome = "ok"
   /\ \E j \in 1..(i - 1) : c.variants[j].outcome = "ok"
